@@ -12,6 +12,7 @@ import (
 	"io"
 	"io/ioutil"
 	"math/rand"
+	"reflect"
 	"strings"
 	"testing/iotest"
 )
@@ -110,6 +111,7 @@ func checkC06(c *Ctx) {
 	c.Assume("the AEAD and HKDF are parameters of the model (hypothesis open∘seal = id, tag 16 bytes); the reference evaluation uses golang.org/x/crypto directly")
 	c.Assume("frame counters other than 0 are installed by reflection on the unexported uint64 fields (as hc's own tests do in-package)")
 	c06Queued(c)
+	c06StreamOfMessages(c)
 
 	var cases []c06Case
 	quickLens := map[int]bool{}
@@ -473,4 +475,88 @@ func lensOf(ps [][]byte) []int {
 		l = append(l, len(p))
 	}
 	return l
+}
+
+// c06StreamOfMessages: several messages of one sender arrive back to back in ONE stream (a bytes.Reader, or a reader
+// that hands out a few bytes at a time) and are decrypted by successive Decrypt calls on that same stream. A call ends
+// with the first frame shorter than 1024 bytes (or at the end of the stream), so the calls must return the payloads
+// grouped accordingly, nothing lost and nothing repeated.
+func c06StreamOfMessages(c *Ctx) {
+	for i := 0; i < c.Pick(60, 1500); i++ {
+		id := c.CaseID("msgstream", i)
+		if c.Skip(id) {
+			continue
+		}
+		r := c.CaseRng("msgstream", i)
+		pair := newSessPair(r)
+		n := 2 + r.Intn(6)
+		var payloads [][]byte
+		var wire []byte
+		var groups [][]byte
+		var cur []byte
+		for k := 0; k < n; k++ {
+			l := []int{1, 3, 70, 100, 1023, 1024, 1025, 2048, 2100}[r.Intn(9)]
+			p := randBytes(r, l)
+			payloads = append(payloads, p)
+			out, err := hcEncrypt(pair.client, bytes.NewReader(p))
+			if err != nil {
+				c.Violate("Encrypt returns an error for a well-behaved reader", id, hx(p), "nil", err.Error())
+				return
+			}
+			wire = append(wire, out...)
+			cur = append(cur, p...)
+			if l%1024 != 0 {
+				groups = append(groups, cur)
+				cur = nil
+			}
+		}
+		if cur != nil {
+			groups = append(groups, cur)
+		}
+		rd := bytes.NewReader(wire)
+		var wrap func(io.Reader) io.Reader
+		mode := "whole"
+		if r.Intn(2) == 0 {
+			mode = "dribble"
+			rr := rand.New(rand.NewSource(int64(i)))
+			wrap = func(x io.Reader) io.Reader { return &dribbleReader{x, rr} }
+		}
+		var src io.Reader = rd
+		if wrap != nil {
+			src = wrap(rd)
+		}
+		in := map[string]interface{}{"message_lengths": lensOf(payloads), "stream": mode}
+		msg, pan := safely(func() {
+			for g, want := range groups {
+				o, err := pair.server.Decrypt(src)
+				var got []byte
+				if o != nil && !reflect.ValueOf(o).IsNil() {
+					got, _ = ioutil.ReadAll(o)
+				}
+				if err != nil || !bytes.Equal(got, want) {
+					c.Violate("messages that arrive back to back in one stream are not all decrypted (a Decrypt call consumed or lost bytes of the next message)", id, in,
+						fmt.Sprintf("call %d returns %d bytes", g, len(want)), fmt.Sprintf("%d bytes, err=%v, %d wire bytes left", len(got), err, rd.Len()))
+					return
+				}
+			}
+		})
+		if pan {
+			c.Violate("Encrypt/Decrypt panics", id, in, "no panic", msg)
+		}
+		c.Count(fmt.Sprint("msgstream/", lensOf(payloads), mode), true, "stream:msgstream", "msgstream:"+mode)
+	}
+}
+
+// dribbleReader hands out 1-7 bytes per Read.
+type dribbleReader struct {
+	r   io.Reader
+	rnd *rand.Rand
+}
+
+func (d *dribbleReader) Read(p []byte) (int, error) {
+	n := 1 + d.rnd.Intn(7)
+	if n > len(p) {
+		n = len(p)
+	}
+	return d.r.Read(p[:n])
 }
